@@ -6,7 +6,7 @@ import re
 
 from ..callgraph import CallGraph
 from ..loader import AnalysisError, dotted, norm, walk_no_defs
-from ..minieval import MiniEval, Obj, Unsupported
+from ..minieval import module_constants, MiniEval, Obj, Unsupported
 from ..paths import FP, PE, Executor, Semantics
 from ..report import RuleReport
 from ..rules.common import run_flags
@@ -140,7 +140,10 @@ def r2_lookup_order(a, tier):
         raise Unsupported('getattr on non-semantics object')
 
     for what, sem, name, want in cases:
-        ev = MiniEval({}, calls={'getattr': _getattr, 'safe_name': lambda s, *x: s, 'callable': callable})
+        ev = MiniEval(dict(module_constants(fn.module)), calls={'getattr': _getattr, 'safe_name': lambda s, *x: s, 'callable': callable})
+        for hn, hf in fn.module.functions.items():  # module-level helpers of the lookup are interpretable too
+            if hn not in ev.calls and hf is not fn and not hf.decorators:
+                ev.globals.setdefault(hn, ('<func>', hf.node, {}))
         got = ev.call_function(fn.node, [sem, name])
         ok = got is want
         rep.add({'case': what, 'ok': ok})
@@ -302,31 +305,46 @@ def r4_transparency(a, tier):
 
 
 def _transparent_handler(h: ast.ExceptHandler) -> bool:
-    """A foreign-class handler is transparent for exceptions coming out of the callee iff every way of NOT re-raising is
-    guarded by `<traceback of the caught exception>.tb_next is None` (raised by the call expression itself, e.g. an
-    argument-binding TypeError), and the handler otherwise ends in a bare `raise`."""
-    if not h.body or not (isinstance(h.body[-1], ast.Raise) and h.body[-1].exc is None):
-        return False
+    """A foreign-class handler is transparent for exceptions coming out of the callee iff on every path through it that does
+    not end in a bare `raise` the fact `<traceback of the caught exception>.tb_next is None` is established by the tests passed
+    (the exception was raised by the call expression itself, e.g. an argument-binding TypeError).  Facts: the body of
+    `if a and b` knows a, b; the code after / else of `if a or b: <leaves>` knows not a, not b."""
     tb_vars = set()
     for n in ast.walk(h):
         if isinstance(n, ast.Assign) and isinstance(n.targets[0], ast.Name) and h.name and norm(n.value) == f'{h.name}.__traceback__':
             tb_vars.add(n.targets[0].id)
+    pos_atoms = {f'{v}.tb_next is None' for v in tb_vars} | ({f'{h.name}.__traceback__.tb_next is None'} if h.name else set())
+    neg_atoms = {x.replace(' is None', ' is not None') for x in pos_atoms}
 
-    def guarded(test: ast.expr) -> bool:
-        conj = test.values if isinstance(test, ast.BoolOp) and isinstance(test.op, ast.And) else [test]
-        for c in conj:
-            t = norm(c)
-            if any(t == f'{v}.tb_next is None' for v in tb_vars) or (h.name and t == f'{h.name}.__traceback__.tb_next is None'):
-                return True
-        return False
+    def facts(test, truth: bool) -> bool:
+        """does TEST evaluating to TRUTH establish the wanted fact?"""
+        if isinstance(test, ast.UnaryOp) and isinstance(test.op, ast.Not):
+            return facts(test.operand, not truth)
+        if isinstance(test, ast.BoolOp):
+            if isinstance(test.op, ast.And) and truth:
+                return any(facts(v, True) for v in test.values)
+            if isinstance(test.op, ast.Or) and not truth:
+                return any(facts(v, False) for v in test.values)
+            return False
+        t = norm(test)
+        return (truth and t in pos_atoms) or (not truth and t in neg_atoms)
 
-    for s_ in h.body[:-1]:
-        if isinstance(s_, ast.Assign):
-            continue
-        if isinstance(s_, ast.If) and guarded(s_.test) and not s_.orelse:
-            continue
-        return False
-    return True
+    def ok_block(stmts, known: bool) -> bool:
+        """every path through STMTS (entered with the fact KNOWN or not) ends in a bare raise or has the fact when it leaves
+        otherwise (return / falling off the end)"""
+        for i, s_ in enumerate(stmts):
+            if isinstance(s_, ast.Raise):
+                return s_.exc is None or known
+            if isinstance(s_, ast.Return):
+                return known
+            if isinstance(s_, ast.If):
+                rest = stmts[i + 1:]
+                return ok_block([*s_.body, *rest], known or facts(s_.test, True)) and ok_block([*s_.orelse, *rest], known or facts(s_.test, False))
+            if isinstance(s_, (ast.Assign, ast.AnnAssign, ast.Expr, ast.Pass)):
+                continue
+            return False
+        return known
+    return bool(h.body) and ok_block(list(h.body), False)
 
 
 def _has_value_call(a, f) -> bool:
